@@ -186,6 +186,12 @@ def job_shared(pairs):
             if a[0] != 'ok':
                 acc.violation('dialect-document-rejected', {'kind': 'text', 'text': text}, 'document rejected: %s' % (a[1][:2],))
                 continue
+            # the same document through ONE matcher that is taken through both dialects by their headers
+            b = I.parse_reused(text, 'en')
+            if b[0] != 'ok' or [s['keywordType'] for ch in b[1]['feature']['children'] for s in ch['scenario']['steps']] != \
+                    [s['keywordType'] for ch in a[1]['feature']['children'] for s in ch['scenario']['steps']]:
+                acc.violation('keyword-type', {'kind': 'text', 'text': text, 'after_dialect': d1 if d == d2 else None},
+                              'keyword %r in dialect %s: a token matcher that switched dialects before (%s) reports other keyword types than a fresh one' % (k, d, d1))
             lx = R.RefLexer(d)
             want = []
             for st in steps:
